@@ -390,8 +390,52 @@ func c11publication(c *Ctx, p *load.Program) {
 	R.Check("C11.publication", "C11.publication/ChainIDAlephium", "", "ChainIDAlephium is 255", v == 255, fmt.Sprint(v))
 }
 
+// c11strings: the decoder applied to the 32-byte symbol/name strips exactly the zero padding the
+// contracts use. The bridge's own Ralph decoder (AttestTokenHandler.removeTrailingZeros) treats the
+// text as right-padded, so trailing NULs must be removed; leading NULs may be removed as well.
+func c11strings(c *Ctx, p *load.Program) {
+	R := c.R
+	fn := must(p.Func(pkgAlph, "bytesToString"), "alephium.bytesToString")
+	n := 0
+	var rets []*ssa.Return
+	eachInstr(fn, func(i ssa.Instruction) {
+		if r, ok := i.(*ssa.Return); ok {
+			rets = append(rets, r)
+		}
+	})
+	for _, ret := range rets {
+		rv := returnValues(ret)
+		if len(rv) != 1 {
+			continue
+		}
+		n++
+		ok, why := false, "returned value = "+facts.Term(rv[0])
+		{
+			v := rv[0]
+			if cv, isConv := v.(*ssa.Convert); isConv {
+				v = cv.X
+			}
+			if cl, isCall := strip(v).(*ssa.Call); isCall {
+				name := facts.CalleeName(&cl.Call)
+				if (name == "bytes.Trim" || name == "bytes.TrimRight") && len(cl.Call.Args) == 2 && cl.Call.Args[0] == fn.Params[0] {
+					if k, isK := cl.Call.Args[1].(*ssa.Const); isK && k.Value != nil && constant.StringVal(k.Value) == "\x00" {
+						ok = true
+					} else {
+						why = "cutset is not exactly the NUL byte"
+					}
+				} else {
+					why = "padding is removed by " + name + ": trailing NUL padding (the layout AttestTokenHandler.removeTrailingZeros assumes) is kept in the decoded text"
+				}
+			}
+		}
+		R.Check("C11.attest-strings", R.Key("C11.attest-strings", shortFn(fn), "return"), c.rel(p.Pos(fn.Pos())), "symbol and name are decoded by removing the zero padding on the right (and optionally on the left) of the 32-byte field, nothing else", ok, why)
+	}
+	R.Floor("C11.attest-strings", n, 1)
+}
+
 func c11attest(c *Ctx, p *load.Program) {
 	R := c.R
+	c11strings(c, p)
 	fn := must(p.Func(pkgAlph, "parseAttestToken"), "alephium.parseAttestToken")
 	tiT := must(p.Named(pkgAlph, "TokenInfo"), "alephium.TokenInfo")
 	// Go side: destination -> [from,to)
